@@ -13,5 +13,14 @@ for f in sorted(glob.glob(os.path.join(ROOT, "spec", "*.tla"))):
         print("SANY failed on", f)
         print(p.stdout[-1500:])
         bad += 1
+# one-off sanity of the spec's curve-order constants (primality is not decided by TLC)
+import re
+txt = open(os.path.join(ROOT, "spec", "CurveOrders.tla")).read()
+consts = {m.group(1): [int(x) for x in m.group(2).split(",")] for m in re.finditer(r"^(\w+) == <<([0-9, ]+)>>", txt, re.M)}
+code = "import sympy,sys\n" + "\n".join("assert sympy.isprime(%d), %r" % (sum(v << (8 * i) for i, v in enumerate(l)), n) for n, l in consts.items()) + "\nprint('curve orders prime:', %r)" % sorted(consts)
+p = subprocess.run(["python3-vt", "-c", code], stdout=subprocess.PIPE, stderr=subprocess.STDOUT, text=True)
+print(p.stdout.strip())
+if p.returncode != 0:
+    bad += 1
 print("setup: %d spec modules parsed, %d failed" % (len(glob.glob(os.path.join(ROOT, "spec", "*.tla"))), bad))
 sys.exit(1 if bad else 0)
